@@ -10,7 +10,9 @@ from .geom import Geo, dec, enc, well_id
 
 ROWS_ = "ABCDEFGHIJKLMNOPQRSTUVWXYZ"
 LAB_NAMES = ["src", "dst", "plate1", "T", "reservoir", "A", "MTP-96", "x y", "stocks", "dil", "Waste_2", "b",
-             "µ-plate", "a.b", "96er", "N" * 32, "first", "plate ", " lead", "tab\tname"]
+             "µ-plate", "a.b", "96er", "N" * 32, "first", "plate ", " lead", "tab\tname",
+             "Systemliquid",  # EVOware's built-in rack name (robotools.evotools.types.Labwares.SystemLiquid) as a labware name
+             "Waste", "Trough 100ml"]
 COMPONENTS = ["water", "glucose", "NaCl", "buffer", "x", "dye"]
 
 
@@ -19,6 +21,8 @@ def snap(x, regime):
         return round(x * 4) / 4
     if regime == "centi":
         return round(x * 100) / 100
+    if regime == "milli":
+        return round(x * 1000) / 1000
     return float(x)
 
 
@@ -32,6 +36,11 @@ def snap_down(x, regime):
         v = math.floor(x * 100) / 100
         while v > x:
             v = (round(v * 100) - 1) / 100
+        return max(v, 0.0)
+    if regime == "milli":
+        v = math.floor(x * 1000) / 1000
+        while v > x:
+            v = (round(v * 1000) - 1) / 1000
         return max(v, 0.0)
     return float(x)
 
